@@ -123,6 +123,16 @@ Theorem C16_small_space_three_links :
 Proof. exact small_space3_ok. Qed.
 Print Assumptions C16_small_space_three_links.
 
+(* targets that only the FINAL apply_instantiation_links pass fills: one class group added with instantiate=False at every
+   declaration position of every layout with <= 2 constructed objects (21 layouts), every 1- and 2-link sequence into
+   constructed objects and into that group (9,000 cases), both variants of the code.  This is the theorem in which
+   apply_final (and, for fx_source, the record of instantiated components it is given) is inside the statement. *)
+Theorem C16_small_space_final_pass_targets :
+  forall shs ls, In shs layouts_sink -> In ls (link_seqs_sink (decls_from 0 shs)) ->
+    (case_ok nofix (decls_from 0 shs, ls) && case_ok_fixed (decls_from 0 shs, ls)) = true.
+Proof. exact small_space_sink_ok. Qed.
+Print Assumptions C16_small_space_final_pass_targets.
+
 (* ==== 5. witnesses: hypotheses are satisfiable, findings refute the unguarded statement ================================ *)
 
 Definition key (l : list str) : str := join_dot l.
@@ -178,6 +188,23 @@ Example C16_none_valued_attribute_is_passed :
     (OOk, [ENew (nm 2) []; ECall 1 [BLit 2]; ENew (nm 1) [(1, VFn 1 [BLit 2])]; ENew (nm 0) []]) = false.
 Proof. vm_compute. auto. Qed.
 
+(* a: class group added with instantiate=False; b: class group whose parameter child is a class-typed argument.
+   b.child --fn--> a.l0: both b.child and b are constructed, then the final pass calls compute_fn on the b.child object
+   (taken from the record of instantiated components: cfg no longer leads to it) and the returned cfg holds the result.
+   On the pinned tree (nofix) the same link raises NSKeyError: class 2, finding source-under-group. *)
+Definition ex_sink_ds : list decl := decls_from 0 [ShGI; ShGN].
+Definition ex_sink_ls : list link :=
+  [{| l_id := 0; l_srcs := [key [nm 1; s_child]]; l_target := key [nm 0; param 0]; l_fn := true |}].
+Example C16_final_pass_target_example :
+  run allfix ex_sink_ds ex_sink_ls
+  = (OOk, [ENew (key [nm 1; s_child]) []; ENew (nm 1) []; ECall 0 [BObj (key [nm 1; s_child])];
+           ECfg (nm 0) [(0, VFn 0 [BObj (key [nm 1; s_child])])]]) /\
+  link_class allfix ex_sink_ds ex_sink_ls = 0%N /\
+  link_spec_ok ex_sink_ds ex_sink_ls (run allfix ex_sink_ds ex_sink_ls) = true /\
+  run nofix ex_sink_ds ex_sink_ls = (OExc, []) /\ link_class nofix ex_sink_ds ex_sink_ls = 2%N /\
+  In [ShGI; ShGN] layouts_sink /\ In ex_sink_ls (link_seqs_sink ex_sink_ds).
+Proof. vm_compute. repeat split; try reflexivity; repeat (try (left; reflexivity); right). Qed.
+
 Example C16_small_space_nontrivial :
   length layouts_upto3 = 27 /\ length layouts_flat4 = 16 /\
   length (link_seqs (components (decls_from 0 [ShSN; ShG]))) = 600 /\
@@ -193,7 +220,7 @@ Definition nto_ls : list link :=
 Theorem C16_nested_target_order_refuted :
   exists ds ls o,
     let cs := components ds in
-    first_cycle (all_units ds) [] (flat_map (fun l => match spec_link (all_units ds) l with Some x => [x] | None => [] end) ls) 0 = None /\
+    first_cycle (all_units ds) [] (flat_map (fun l => match spec_link (all_units ds) (sinks_of ds) l with Some x => [x] | None => [] end) ls) 0 = None /\
     add_links nofix cs ls = None /\                                  (* acyclic and accepted *)
     inst_order nofix cs ls = Order o /\
     map c_dest (comp_sequence cs o) = [nm 0; nm 2; nm 1] /\          (* a is built before b, which feeds a's nested object *)
